@@ -1,4 +1,4 @@
-CONSTANTS Max = 8 MaxPayload = 5 MaxChunk = 4 Mode = "async" MaxPending = 2 Faults = TRUE MaxLen = 9
+CONSTANTS Max = 8 MaxPayload = 5 MaxChunk = 4 Mode = "async" MaxPending = 2 Faults = TRUE MaxLen = 8
 SPECIFICATION GSpec
 INVARIANT Emit
 CONSTRAINT Bound
